@@ -15,17 +15,18 @@ from .checks_inverter import serial_for  # noqa: E402
 from .engine import Run  # noqa: E402
 from .vloop import TICK  # noqa: E402
 
-S_ADDR, F_ADDR, R_ADDR = 47000, 48000, 49000
+S_ADDR, F_ADDR, R_ADDR, E_ADDR = 47000, 48000, 49000, 50000
 
 
 def hist_program(fam: str, port: int, kinds: str, retries: int) -> dict:
     serial = serial_for("ETU" if fam == "ET" else "DTU")
-    sim = {"regs": device_regs(fam, serial, 10000), "silent": [[F_ADDR, F_ADDR + 10]], "refused": [[R_ADDR, R_ADDR + 10]]}
+    sim = {"regs": device_regs(fam, serial, 10000), "silent": [[F_ADDR, F_ADDR + 10]], "refused": [[R_ADDR, R_ADDR + 10]],
+           "oserr": [[E_ADDR, E_ADDR + 10]]}
     if fam == "ES":
         sim["aa55"] = {"info": list(es_info("95048ESU000W0000"))}
     calls = []
     for k in kinds:
-        a = {"S": S_ADDR, "F": F_ADDR, "R": R_ADDR}[k]
+        a = {"S": S_ADDR, "F": F_ADDR, "R": R_ADDR, "E": E_ADDR}[k]
         calls.append({"api": "read_setting", "args": [f"modbus-{a}"]})
     return {"inv": [{"family": fam, "port": port, "sim": sim, "retries": retries, "timeout": 1}], "calls": calls,
             "case": {"case": "hist", "kinds": kinds, "fam": fam, "port": port}}
@@ -150,8 +151,9 @@ def extend(run: Run, prop: str, tier: str, rnd: random.Random) -> None:
         L = 5 if quick else 8
         progs = []
         for n in range(1, L + 1):
-            for kinds in itertools.product("SFR", repeat=n):
-                if quick and n == L and rnd.random() < 0.5:
+            # S answered, F silence (retries exhausted), R refused by the inverter, E failure of the network (ICMP / reset)
+            for kinds in itertools.product("SFRE", repeat=n):
+                if quick and n >= L - 1 and rnd.random() < (0.8 if n == L else 0.5):
                     continue
                 fam, port = (("ET", 8899), ("DT", 8899), ("ET", 502), ("ES", 8899))[(len(progs)) % 4]
                 progs.append(hist_program(fam, port, "".join(kinds), 0 if n > 3 else 1))
